@@ -143,8 +143,13 @@ func bodyReader(untypedBody any) (func() (io.Reader, error), error) {
 		}, nil
 
 	case io.ReadSeeker:
+		// Replay from the position the body was handed over at, which is where a plain request would start reading
+		start, err := body.Seek(0, io.SeekCurrent)
+		if err != nil {
+			return nil, err
+		}
 		return func() (io.Reader, error) {
-			_, err := body.Seek(0, 0)
+			_, err := body.Seek(start, io.SeekStart)
 			return io.NopCloser(body), err
 		}, nil
 
